@@ -26,6 +26,8 @@ type c03Shape struct {
 	target []byte
 	toks   []rp.Token
 	head   rp.SumHead
+	// announced, if non-zero: the length the file list announces (default: the target's length)
+	announced int64
 }
 
 func c03Shapes() []c03Shape {
@@ -40,15 +42,15 @@ func c03Shapes() []c03Shape {
 	slit := genData(famHash, 64, 5555)
 	smixed := append(append(append([]byte{}, sblk(0)...), slit...), sblk(2)...)
 	return []c03Shape{
-		{"whole-file", nil, whole, []rp.Token{rp.Lit(whole)}, rp.SumHead{Count: 0, BLen: 700, S2Len: 16, Rem: 0}},
-		{"pure-delta", basis, basis, []rp.Token{rp.Ref(0), rp.Ref(1), rp.Ref(2)}, h3},
-		{"mixed", basis, mixed, []rp.Token{rp.Ref(0), rp.Lit(lit), rp.Ref(2)}, h3},
+		{"whole-file", nil, whole, []rp.Token{rp.Lit(whole)}, rp.SumHead{Count: 0, BLen: 700, S2Len: 16, Rem: 0}, 0},
+		{"pure-delta", basis, basis, []rp.Token{rp.Ref(0), rp.Ref(1), rp.Ref(2)}, h3, 0},
+		{"mixed", basis, mixed, []rp.Token{rp.Ref(0), rp.Lit(lit), rp.Ref(2)}, h3, 0},
 		// other header echoes a sender may produce: tridge rsync echoes the generator's header verbatim
 		// (all zero for a file without basis); a peer may announce any strong-checksum length
-		{"whole-file/zero-head", nil, whole, []rp.Token{rp.Lit(whole)}, rp.SumHead{}},
-		{"whole-file/s2len-2", nil, whole, []rp.Token{rp.Lit(whole)}, rp.SumHead{Count: 0, BLen: 700, S2Len: 2, Rem: 0}},
-		{"mixed-small/s2len-0", sbasis, smixed, []rp.Token{rp.Ref(0), rp.Lit(slit), rp.Ref(2)}, rp.SumHead{Count: 3, BLen: 64, S2Len: 0, Rem: 0}},
-		{"mixed-small/s2len-15", sbasis, smixed, []rp.Token{rp.Ref(0), rp.Lit(slit), rp.Ref(2)}, rp.SumHead{Count: 3, BLen: 64, S2Len: 15, Rem: 0}},
+		{"whole-file/zero-head", nil, whole, []rp.Token{rp.Lit(whole)}, rp.SumHead{}, 0},
+		{"whole-file/s2len-2", nil, whole, []rp.Token{rp.Lit(whole)}, rp.SumHead{Count: 0, BLen: 700, S2Len: 2, Rem: 0}, 0},
+		{"mixed-small/s2len-0", sbasis, smixed, []rp.Token{rp.Ref(0), rp.Lit(slit), rp.Ref(2)}, rp.SumHead{Count: 3, BLen: 64, S2Len: 0, Rem: 0}, 0},
+		{"mixed-small/s2len-15", sbasis, smixed, []rp.Token{rp.Ref(0), rp.Lit(slit), rp.Ref(2)}, rp.SumHead{Count: 3, BLen: 64, S2Len: 15, Rem: 0}, 0},
 	}
 }
 
@@ -69,7 +71,14 @@ func c03Session(role int, sh c03Shape, mk func(seed int32) []byte, pre func(dest
 	if pre != nil {
 		pre(dest)
 	}
-	list := &rp.FList{Entries: []rp.FEntry{{Name: []byte("f"), Len: int64(len(sh.target)), Mtime: tm.Past, Mode: rp.SIFREG | 0o644}}}
+	flen := int64(len(sh.target))
+	if sh.announced != 0 {
+		flen = sh.announced
+		if flen < 0 {
+			flen = 0
+		}
+	}
+	list := &rp.FList{Entries: []rp.FEntry{{Name: []byte("f"), Len: flen, Mtime: tm.Past, Mode: rp.SIFREG | 0o644}}}
 	script := &peer.SenderScript{List: list, Seed: c03Seed, HalfClose: true}
 	script.Reply = func(req peer.Request) *peer.Reply {
 		if onReq != nil {
@@ -250,6 +259,54 @@ func c03BuildControl(tier string) core.Source {
 	}}
 }
 
+// c03BuildLength: the stream is honest (its trailer covers exactly the bytes it denotes) but the file list
+// announced another length — the source shrank or grew between listing and sending. What gets published,
+// if anything, must be exactly the bytes the sender read: nothing the receiver prepared for the announced
+// length (reserved space, padding, leftovers) may become part of the file.
+func c03BuildLength(tier string) core.Source {
+	drive.Quiet()
+	type cs struct {
+		announced, sent int
+		basis           bool
+		role            int
+	}
+	var cases []cs
+	for _, p := range [][2]int{{40000, 0}, {40000, 1}, {40000, 32768}, {40000, 39999}, {200000, 120000}, {32768, 100}, {1 << 20, 70000}, {40000, 40001}, {100, 40000}, {-1, 5000}, {300000, 300000}} {
+		for _, basis := range []bool{false, true} {
+			for role := 0; role < 2; role++ {
+				cases = append(cases, cs{p[0], p[1], basis, role})
+			}
+		}
+	}
+	return core.FuncSource{N: len(cases), F: func(i int) core.Result {
+		c := cases[i]
+		target := genData(famHash, c.sent, uint32(300+i))
+		sh := c03Shape{name: "length", target: target, toks: []rp.Token{rp.Lit(target)}, head: rp.SumHead{Count: 0, BLen: 700, S2Len: 16}, announced: int64(c.announced)}
+		if c.sent == 0 {
+			sh.toks = nil
+		}
+		var prior []byte
+		if c.basis {
+			prior = genData(famText, 5000, uint32(900+i))
+			sh.basis = prior
+			// with a basis the generator sends sums; the honest sender answers with literals only (nothing matches)
+			sh.head = rp.LegalHead(len(prior), 700, 16)
+		}
+		res := core.Result{Case: fmt.Sprintf("file list announces %d bytes, the honest stream carries %d (basis present: %v, role %d)", c.announced, c.sent, c.basis, c.role)}
+		ok, after, present, detail := c03Session(c.role, sh, func(seed int32) []byte { return c03Raw(0, sh, sh.toks, rp.FileSum(seed, sh.target)) }, nil, nil)
+		cnt(&res, "transitions", 1)
+		cnt(&res, "states", 1)
+		cnt(&res, "traces_validated_against_impl", 1)
+		if f := c03Judge(ok, after, present, sh, prior, c.basis, res.Case, detail, "shape", "length", "role", fmt.Sprint(c.role)); f != nil {
+			res.Fail = f
+			return res
+		}
+		res.Nontrivial = true
+		res.Outcome = fmt.Sprintf("ok/accepted=%v", ok)
+		return res
+	}}
+}
+
 // c03BuildTokenFaults: substitutions, transpositions, duplications and
 // truncations of a <=5-token stream sent with the TRUE trailer of the source.
 func c03BuildTokenFaults(tier string) core.Source {
@@ -394,12 +451,13 @@ func init() {
 	core.Register(&core.Prop{
 		ID:    "C03",
 		Level: "model_checking",
-		Rule: "flips: every single-bit flip at every bit position of the file's data segment (index word, echoed head, every token word, every literal byte, end marker, 16-byte trailer) for seven file shapes (whole-file, pure-delta, mixed; whole-file with the all-zero header tridge echoes and with strong length 2; 64-byte-block delta with strong length 0 and 15) in both receiver roles (flips that turn a literal length into >= 16 MiB are skipped and counted), each as one real session fed by the scripted reference sender; tokenfaults: every substitution of a block reference by another valid one, changed/shortened literals, all transpositions, duplications and deletions of 3 streams of <=5 tokens sent with the true trailer; basisedit: third-party modification of the basis between signature generation and reconstruction; control: undamaged streams are accepted. " +
+		Rule: "flips: every single-bit flip at every bit position of the file's data segment (index word, echoed head, every token word, every literal byte, end marker, 16-byte trailer) for seven file shapes (whole-file, pure-delta, mixed; whole-file with the all-zero header tridge echoes and with strong length 2; 64-byte-block delta with strong length 0 and 15) in both receiver roles (flips that turn a literal length into >= 16 MiB are skipped and counted), each as one real session fed by the scripted reference sender; tokenfaults: every substitution of a block reference by another valid one, changed/shortened literals, all transpositions, duplications and deletions of 3 streams of <=5 tokens sent with the true trailer; basisedit: third-party modification of the basis between signature generation and reconstruction; control: undamaged streams are accepted; length: honest streams whose length differs from the one the file list announced (11 pairs incl. 0, 1, 32768, one byte short/long, with and without basis, both roles): what is published must be exactly the bytes the sender read. " +
 			"oracle: (error, previous content kept and the kept file not re-stamped with the new version's time) or (success and destination == source); states/transitions = sessions; non-trivial = case whose damage was rejected",
 		Assum: []string{"MD4 collisions are not searched for", "the scripted sender half-closes its direction after its last byte so a receiver waiting for announced-but-missing bytes sees EOF"},
 		Parts: func(tier string) []core.Part {
 			return []core.Part{
 				{Name: "control", Build: c03BuildControl},
+				{Name: "length", Build: c03BuildLength},
 				{Name: "flips", Build: c03BuildFlips},
 				{Name: "tokenfaults", Build: c03BuildTokenFaults},
 				{Name: "basisedit", Build: c03BuildBasisEdit},
